@@ -208,7 +208,18 @@ pub fn check_large(alg: Algorithm, inp: &super::large::LargeInput) -> Result<(bo
         fp.add(calls_fp(&success));
         tr += success.len() as u64;
         let len = success.len();
-        let mut ks = vec![0, 1, len / 3, len / 2, len.saturating_sub(2), len - 1];
+        // expensive inputs (large edit distance, or an LCS side beyond 2^15): three failing
+        // positions instead of six
+        let d: usize = success
+            .iter()
+            .map(|c| match *c {
+                Call::Del(_, l, _) | Call::Ins(_, _, l) => l,
+                Call::Rep(_, a, _, b) => a + b,
+                _ => 0,
+            })
+            .sum();
+        let heavy = (n + m) as u64 * (d as u64 + 1) > 20_000_000 || (alg == Algorithm::Lcs && n.max(m) > 32_768);
+        let mut ks = if heavy { vec![0, len / 2, len - 1] } else { vec![0, 1, len / 3, len / 2, len.saturating_sub(2), len - 1] };
         ks.retain(|&k| k < len);
         ks.sort();
         ks.dedup();
@@ -548,7 +559,7 @@ pub fn run(cfg: &RunCfg) -> CheckReport {
         return rep;
     }
     // LCS beyond a million table cells (size-triggered fallbacks): two inputs, LCS only
-    let big = super::large::lcs_big();
+    let big = super::large::lcs_big_for(cfg.tier, true);
     let ex = explore(cfg, big.len(), |shard, acc| {
         let inp = &big[shard];
         match check_large(Algorithm::Lcs, inp) {
